@@ -24,9 +24,55 @@ Definition call_key (c : call) : string :=
   | CHook HCustomize _ => "note"
   end.
 
+(* the names inside a ControllerRevision are appended while ranging over Go maps: compared as sets *)
+Fixpoint insert_str (x : string) (l : list string) : list string :=
+  match l with
+  | [] => [x]
+  | y :: l' => if String.leb x y then x :: l else y :: insert_str x l'
+  end.
+Definition sort_strs (l : list string) : list string := fold_right insert_str [] l.
+
+Fixpoint insert_rck (x : rck) (l : list rck) : list rck :=
+  match l with
+  | [] => [x]
+  | y :: l' => if String.leb (ck_kind x ++ "." ++ ck_group x) (ck_kind y ++ "." ++ ck_group y) then x :: l else y :: insert_rck x l'
+  end.
+
+Definition norm_rev_body (j : json) : json :=
+  match j with
+  | JObj m =>
+      match alookup "children" m with
+      | Some (JArr l) =>
+          let cks := map (fun ck => let r := rck_of_json ck in mkRck (ck_group r) (ck_kind r) (sort_strs (ck_names r))) l in
+          JObj (aset "children" (JArr (map json_of_rck (fold_right insert_rck [] cks))) m)
+      | _ => j
+      end
+  | _ => j
+  end.
+
+(* which unhappy child a RolloutWaiting message names depends on Go map iteration order: the text is not compared *)
+Definition norm_waiting (j : json) : json :=
+  match j with
+  | JObj m =>
+      match alookup "status" m with
+      | Some (JObj sm) =>
+          match alookup "conditions" sm with
+          | Some (JArr l) =>
+              JObj (aset "status" (JObj (aset "conditions"
+                (JArr (map (fun cnd => match cnd with
+                         | JObj cm => if String.eqb (cond_field cnd "reason") "RolloutWaiting"
+                                      then JObj (aremove "message" cm) else cnd
+                         | _ => cnd end) l)) sm)) m)
+          | _ => j end
+      | _ => j end
+  | _ => j
+  end.
+
 Definition req_eqb (a b : req) : bool :=
   verb_eqb (q_verb a) (q_verb b) && String.eqb (q_res a) (q_res b) && String.eqb (q_ns a) (q_ns b) &&
-  String.eqb (q_name a) (q_name b) && jeqb (q_body a) (q_body b) &&
+  String.eqb (q_name a) (q_name b) &&
+  (if String.eqb (q_res a) rev_res then jeqb (norm_rev_body (q_body a)) (norm_rev_body (q_body b))
+   else jeqb (norm_waiting (q_body a)) (norm_waiting (q_body b))) &&
   String.eqb (q_uid_pre a) (q_uid_pre b) && String.eqb (q_prop a) (q_prop b).
 
 Definition call_eqb (a b : call) : bool :=
